@@ -30,3 +30,6 @@
 ; would also turn every failing query into `unknown`). Contracts name the
 ; instances they need (`use unfoldFields(a, p)`, ...), see the axiom
 ; declarations in protocol/binary/zz_verif_contracts.go.
+; hasField(a, p, id, ty): the field list starting at p contains a field header with
+; this id and wire type before its stop byte (one-level unfolding: unfoldHas).
+(declare-fun hasField ((Array (_ BitVec 64) (_ BitVec 8)) (_ BitVec 64) (_ BitVec 16) (_ BitVec 8)) Bool)
